@@ -501,6 +501,14 @@ class Cx:
             if isinstance(op, (ast.Eq, ast.NotEq)) and type(a) is type(b) \
                     and a == b:
                 return isinstance(op, ast.Eq)
+            if isinstance(op, (ast.Eq, ast.NotEq)):
+                cp, other = (a, b) if isinstance(a, SymCp) else (b, a)
+                if isinstance(cp, SymCp) and isinstance(other, str) and \
+                        len(other) == 1:
+                    r = self.cp_equals(cp, other)
+                    return r if isinstance(op, ast.Eq) else not r
+                if isinstance(cp, SymCp) and isinstance(other, str):
+                    return isinstance(op, ast.NotEq)
             raise CxError('comparison of an unknown character / table value')
         if isinstance(a, (HexCh, SymCh)) or isinstance(b, (HexCh, SymCh)):
             if isinstance(op, (ast.Eq, ast.NotEq)):
@@ -1630,6 +1638,30 @@ class Cx:
         rec(0, Frame(fr.module, {}, fr.func, parent=fr), None)
         return acc[0]
 
+    def cp_equals(self, cp, ch):
+        """is the unknown code point `cp` the character `ch`?  decided once
+        per path (a code point that was found equal to one character differs
+        from every other)"""
+        known = self.sym_memo.setdefault('cp', {})
+        if cp.name in known and known[cp.name][0] == 'is':
+            return known[cp.name][1] == ch
+        neq = known.setdefault(cp.name, ('not', set()))
+        if neq[0] == 'not' and ch in neq[1]:
+            return False
+        if self.decide(('code point', cp.name, 'is', ch)):
+            known[cp.name] = ('is', ch)
+            return True
+        known[cp.name][1].add(ch)
+        return False
+
+    def cp_value(self, x):
+        """the character an unknown code point was decided to be, else x"""
+        if isinstance(x, SymCp):
+            k = self.sym_memo.get('cp', {}).get(x.name)
+            if k and k[0] == 'is':
+                return k[1]
+        return x
+
     @staticmethod
     def sym_key(idx):
         """tuple of items when idx is a text key made of unknown code points
@@ -1642,6 +1674,12 @@ class Cx:
         return None
 
     def dict_lookup_sym(self, d, key):
+        key = tuple(self.cp_value(x) for x in key)
+        if all(isinstance(x, str) for x in key):
+            k = ''.join(key)
+            if k in d:
+                return d[k]
+            raise PyRaise('KeyError', (k,))
         mk = (id(d), key)
         if mk in self.sym_memo:
             r = self.sym_memo[mk]
@@ -2233,14 +2271,25 @@ def _strip_pred(cx, recv, args):
         chars = cx.items(args[0])
 
         def pred(x):
+            if isinstance(x, (SymCp, SymSel, SymDictVal, BV)):
+                raise CxError('strip() over unknown characters')
             if is_sym(x):
+                hexish = [c for c in chars if (chr(c) if isinstance(c, int)
+                                               else c).lower() in HEXDIGITS]
+                if hexish:
+                    raise CxError('strip() of hex digits over symbolic '
+                                  'digits')
                 return False
             return x in chars
         return pred
 
     def pred(x):
+        if isinstance(x, (SymCp, SymSel, SymDictVal)):
+            raise CxError('strip() over unknown characters')
+        if isinstance(x, BV):
+            raise CxError('strip() over symbolic bytes')
         if is_sym(x):
-            return False
+            return False        # hex digit characters are never blank
         if isinstance(x, int):
             return x in WS
         return isinstance(x, str) and x.isspace()
@@ -2472,6 +2521,12 @@ def seq_text_method(cx, recv, k, its, name, args, kw):
             if ch.lower() in HEXDIGITS:
                 raise CxError('text search that depends on a symbolic digit')
             return False
+        if isinstance(x, SymCp):
+            if isinstance(y, str) and len(y) == 1:
+                return cx.cp_equals(x, y)
+            raise CxError('text search over unknown code points')
+        if isinstance(x, (SymSel, SymDictVal)):
+            raise CxError('text search over symbolic table values')
         return x == y
 
     def match_at(i, n):
